@@ -481,7 +481,7 @@ theorem toBytes_kernel (z : Int) : GenK.toBytes z true 0 = .ok (bytesInts (intTo
     omega
   have hout : Py.toBytes z ((j + 1 : Nat) : Int) true = .ok (bytesInts (intToBytes z)) := by
     unfold Py.toBytes
-    simp only [Int.toNat_natCast, if_true, hrange, and_self, pure, Except.pure]
+    simp only [Int.toNat_natCast, if_true, hrange, and_self, true_or, pure, Except.pure]
     congr 1
     rw [← natToBE_bytes (j + 1) (intToBytes z) hlen]
     congr 1
